@@ -2,7 +2,7 @@
 (***************************************************************************)
 (* C10, code -> spec.  One record per call of split_in_asymmetric_subunits *)
 (* on a random real-valued list:                                           *)
-(*   [id, n, parents (input subtomogram numbers), nrows,                   *)
+(*   [id, n, parents (input subtomogram numbers), nrows, frame,            *)
 (*    groups = <<  <<geom5, << <<geom2, sid, j, rj, rs, rp, int, ms, inh>>, ... >> >>, ... >>] *)
 (* rows are grouped by the recorded parent (geom5) and sorted by geom2;    *)
 (*  j  = index of the element of {Rz(360 j/n)} nearest to R_parent^-1 R_out*)
@@ -51,7 +51,10 @@ PositionOK(t) == \A g \in DOMAIN t.groups : \A k \in DOMAIN Rows(t.groups[g]) : 
 IntegralOK(t) == \A g \in DOMAIN t.groups : \A k \in DOMAIN Rows(t.groups[g]) :
                     Rows(t.groups[g])[k][7] = 1 /\ Rows(t.groups[g])[k][8] <= 500001
 
-Failing(t) == IF ~CountOK(t) THEN "C10_Count"
+\* frame condition observed by the driver's argument guard: the offset vector and the list the method is called on are
+\* as before the call, and a second expansion leaves the result of the first one alone ("" = nothing changed)
+Failing(t) == IF t.frame # "" THEN "C10_ArgumentsUntouched"
+              ELSE IF ~CountOK(t) THEN "C10_Count"
               ELSE IF ~IndicesOK(t) THEN "C10_Indices"
               ELSE IF ~UniqueOK(t) THEN "C10_UniqueIds"
               ELSE IF ~InheritOK(t) THEN "C10_Inherit"
